@@ -228,6 +228,7 @@ TPair == Ty("Sort", 0, "Pair", <<TInt, TSs>>)
 K1s == Sym("k1", TSs)
 K2s == Sym("k2", TSs)
 PP == Sym("pp", TPair)
+TPair2 == Ty("Sort", 0, "Pair", <<TSs, TInt>>)       \* a second instance of the same parametric sort
 FS == TFun(TSs, <<TSs, TInt>>)
 GS == TFun(TBool, <<TBool, TSs>>)
 AS == Sym("as", TArray(TSs, TBool))
@@ -258,6 +259,7 @@ LSTerms ==
      Op("and", <<P, Quant("exists", <<BVar("p", TBool)>>, Op("or", <<P, Qs>>))>>),
      Op("str_prefixof", <<Sym("s", TString), Op("ite", <<P, StrC(<<97>>), Sym("s", TString)>>)>>),
      Op("bv_ult", <<Bb, Op("ite", <<Op("bv_ult", <<Cc, Bb>>), Cc, BVC(1, 2)>>)>>),
+     Op("and", <<Op("equals", <<PP, Sym("pp2", TPair)>>), Op("not", <<Op("equals", <<Sym("pq", TPair2), Sym("pq2", TPair2)>>)>>)>>),
      \* string constants whose TEXT looks like an escape sequence of the Strings theory, non-ASCII and control characters:
      \* the six characters \u{41}; a\u0041; e-acute; TAB; GREEK ALPHA + backslash
      Op("equals", <<Op("str_length", <<StrC(<<92, 117, 123, 52, 49, 125>>)>>), IntC(6)>>),
